@@ -7,6 +7,7 @@ HERE = os.path.dirname(os.path.abspath(__file__))
 VERIF = os.path.dirname(HERE)
 sys.path.insert(0, HERE)
 from mutants import M
+ALL_PROPS = ['C01', 'C02', 'C03', 'C05', 'C06', 'C07', 'C08', 'C09', 'C10', 'C12', 'C13', 'C15', 'C16', 'C17', 'C18', 'C19']
 
 
 def seeded_mutants():
@@ -26,7 +27,21 @@ def seeded_mutants():
     return out
 
 
-M = M + seeded_mutants()
+def refactor_controls():
+    """Independently written behaviour-preserving refactorings kept under /verif/refactors/<id>/patch.diff: every check
+    must stay silent on each (one control entry per property the patch's files are relevant to would be 16x the work;
+    the entry runs ALL checks, see run_one)."""
+    out = []
+    rd = os.path.join(VERIF, 'refactors')
+    if os.path.isdir(rd):
+        for d in sorted(os.listdir(rd)):
+            pf = os.path.join(rd, d, 'patch.diff')
+            if os.path.exists(pf):
+                out.append(dict(id='refac-' + d, prop='ALL', patch=pf, expect='NONE', note='behaviour-preserving refactoring (all 16 checks must stay silent)', tier='quick'))
+    return out
+
+
+M = M + seeded_mutants() + refactor_controls()
 
 
 def run_one(mu, slot):
@@ -62,6 +77,24 @@ def run_one(mu, slot):
         ev = os.path.join(scratch, 'evidence')
         env = dict(os.environ, KV_REPO=scratch, KV_EVIDENCE=ev, KV_KEEP_FACTS='1', KV_NO_SELFTEST='1',
                    KV_TARGET=os.path.join(VERIF, '.cache', 'target-scratch-%d' % slot))
+        if mu['prop'] == 'ALL':
+            keys = []
+            rc = 0
+            outs = ''
+            for pp in ALL_PROPS:
+                r = subprocess.run([os.path.join(VERIF, 'kv'), 'check', pp, '--tier', 'quick'], env=env,
+                                   stdout=subprocess.PIPE, stderr=subprocess.STDOUT, text=True)
+                if r.returncode not in (0, 1):
+                    return dict(id=mu['id'], ok=False, status='check %s crashed: %s' % (pp, r.stdout[-300:]), keys=keys)
+                rc = max(rc, r.returncode)
+                vdir = os.path.join(ev, 'violations')
+                if os.path.isdir(vdir):
+                    for f in sorted(os.listdir(vdir)):
+                        if f.startswith(pp + '-'):
+                            keys.append(pp + ':' + json.load(open(os.path.join(vdir, f)))['key'])
+            ok = rc == 0 and not keys
+            return dict(id=mu['id'], prop='ALL', ok=ok, status='silent (control, all checks)' if ok else 'FALSE ALARM on a behaviour-preserving refactoring',
+                        keys=keys, expect='NONE', wall_s=round(time.time() - t0, 1), note=mu['note'], reverse_of=None)
         r = subprocess.run([os.path.join(VERIF, 'kv'), 'check', mu['prop'], '--tier', mu.get('tier', 'quick')], env=env,
                            stdout=subprocess.PIPE, stderr=subprocess.STDOUT, text=True)
         keys = []
